@@ -4,6 +4,12 @@ import GeoVerif.Series.GeodTrig
 import GeoVerif.Spec.RealInst
 import GeoVerif.Model.GeodLine
 import GeoVerif.Proofs.GeodLine
+import GeoVerif.Model.GeodLineExact
+import GeoVerif.Proofs.GeodLineExact
+import Mathlib.Tactic.FieldSimp
+import Mathlib.Tactic.Linarith
+import Mathlib.Tactic.NormNum
+import Mathlib.Tactic.Positivity
 import Mathlib.Tactic.LinearCombination
 import Mathlib.Tactic.Ring
 /-!
@@ -177,5 +183,260 @@ example : let L := GeoVerif.Proofs.GeodLine.exLine
   refine ⟨rfl, rfl, rfl, rfl, rfl, rfl, ?_, ?_, ?_, ?_, ?_⟩ <;> simp [L, GeoVerif.Proofs.GeodLine.exLine, hypot_real]
 
 end LineVsLengths
+
+/-! ### reduced length and geodesic scales: reversal law, addition rules and the Wronskian for the formulas as coded
+
+`GeodesicLine::GenPosition` and `GeodesicLineExact::GenPosition` evaluate the same three expressions `m12f`, `M12f`, `M21f`
+(`Model/GeodLineExact.lean`) on `(sin σ_i, cos σ_i, dn_i)` and an integral `J12`; the series line obtains `J12` from the `A1, C1, A2, C2`
+series, the exact line from `D(σ)`.  The identities below hold for those expressions whatever `J12` is, given only that it is additive
+along the line — so a wrong sign, a swapped argument or a lost term in the expressions themselves contradicts a theorem, while the accuracy
+of `J12` is left to the oracle. -/
+
+section Scales
+open Real GeoVerif.GeodLine GeoVerif.GeodLineX GeoVerif.Proofs.GeodLine GeoVerif.Proofs.GeodLineX
+
+/-- **reversal law for the formulas as coded** (both lines use `m12f`, `M12f`, `M21f`): exchanging the end points and negating `J`
+    (`J21 = −J12`, an integral taken backwards) negates the signed `m12/b` — the reversed segment runs from 2 to 1 with `σ12 ↦ −σ12`, so the
+    reduced length of the reversed *segment* is unchanged — and exchanges `M12` and `M21`.  `Pt`: unit `(sin σ, cos σ)`, `dn² = 1 + k² sin²σ`, `dn > 0`. -/
+theorem scales_reversal (k2 s1 c1 d1 s2 c2 d2 J : ℝ) (h1 : Pt k2 s1 c1 d1) (h2 : Pt k2 s2 c2 d2) :
+    m12f s2 c2 d2 s1 c1 d1 (-J) = -m12f s1 c1 d1 s2 c2 d2 J ∧
+    M12f k2 s2 d2 s1 c1 d1 (c2 * c1 + s2 * s1) (-J) = M21f k2 s1 c1 d1 s2 d2 (c1 * c2 + s1 * s2) J ∧
+    M21f k2 s2 c2 d2 s1 d1 (c2 * c1 + s2 * s1) (-J) = M12f k2 s1 d1 s2 c2 d2 (c1 * c2 + s1 * s2) J := by
+  refine ⟨by unfold m12f; ring, ?_, ?_⟩
+  · rw [M12f_eq k2 s2 c2 d2 s1 c1 d1 _ h2 h1, M21f_eq k2 s1 c1 d1 s2 c2 d2 J h1 h2]; ring
+  · rw [M21f_eq k2 s2 c2 d2 s1 c1 d1 _ h2 h1, M12f_eq k2 s1 c1 d1 s2 c2 d2 J h1 h2]; ring
+
+/-- **addition rule for the reduced length, for the formulas as coded**: for three points of one geodesic and `J13 = J12 + J23`
+    (the integrals add), `m13 = m12 M23 + m23 M21` — an identity in the ring generated by the unit-circle relations; no property of the
+    integral `J` other than additivity is used -/
+theorem addition_rule_m (k2 s1 c1 d1 s2 c2 d2 s3 c3 d3 J12 J23 : ℝ) (h1 : Pt k2 s1 c1 d1) (h2 : Pt k2 s2 c2 d2) (h3 : Pt k2 s3 c3 d3) :
+    m12f s1 c1 d1 s3 c3 d3 (J12 + J23) =
+      m12f s1 c1 d1 s2 c2 d2 J12 * M12f k2 s2 d2 s3 c3 d3 (c2 * c3 + s2 * s3) J23 +
+      m12f s2 c2 d2 s3 c3 d3 J23 * M21f k2 s1 c1 d1 s2 d2 (c1 * c2 + s1 * s2) J12 := by
+  rw [M12f_eq k2 s2 c2 d2 s3 c3 d3 J23 h2 h3, M21f_eq k2 s1 c1 d1 s2 c2 d2 J12 h1 h2]
+  have hd2 : d2 ≠ 0 := h2.pos.ne'
+  unfold m12f
+  rw [← sub_eq_zero]
+  have key : d2 * ((d3 * (c1 * s3) - d1 * (s1 * c3) - c1 * c3 * (J12 + J23)) -
+      ((d2 * (c1 * s2) - d1 * (s1 * c2) - c1 * c2 * J12) * (c2 * c3 + s2 * s3 + ((d3 - d2) * s3 - c3 * J23) * s2 / d2) +
+       (d3 * (c2 * s3) - d2 * (s2 * c3) - c2 * c3 * J23) * (c1 * c2 + s1 * s2 - ((d2 - d1) * s1 - c1 * J12) * s2 / d2))) =
+      d2 * (J12 * c1 * c3 + J23 * c1 * c3 - c1 * d3 * s3 + c3 * d1 * s1) * (s2 ^ 2 + c2 ^ 2 - 1) := by
+    field_simp
+    ring
+  have hz : d2 * (J12 * c1 * c3 + J23 * c1 * c3 - c1 * d3 * s3 + c3 * d1 * s1) * (s2 ^ 2 + c2 ^ 2 - 1) = 0 := by rw [h2.unit]; ring
+  rw [hz] at key
+  exact (mul_eq_zero.mp key).resolve_left hd2
+
+
+/-- `b · dM12/ds2` for the coded `M12` (differentiate along the line with `dσ/ds = 1/(b dn)`, `dJ/dσ = dn − 1/dn`) -/
+noncomputable def dM12f (s1 c1 d1 s2 c2 d2 J : ℝ) : ℝ := (d2 * s1 * c2 - d1 * c1 * s2 + s1 * s2 * J) / (d1 * d2)
+
+/-- **Wronskian identity for the formulas as coded**: `M12 M21 − m12 · dM12/ds2 = 1` with `b·dM12/ds2 = dM12f` -/
+theorem scales_wronskian (k2 s1 c1 d1 s2 c2 d2 J : ℝ) (h1 : Pt k2 s1 c1 d1) (h2 : Pt k2 s2 c2 d2) :
+    M12f k2 s1 d1 s2 c2 d2 (c1 * c2 + s1 * s2) J * M21f k2 s1 c1 d1 s2 d2 (c1 * c2 + s1 * s2) J
+      - m12f s1 c1 d1 s2 c2 d2 J * dM12f s1 c1 d1 s2 c2 d2 J = 1 := by
+  rw [M12f_eq k2 s1 c1 d1 s2 c2 d2 J h1 h2, M21f_eq k2 s1 c1 d1 s2 c2 d2 J h1 h2]
+  have hd1 : d1 ≠ 0 := h1.pos.ne'
+  have hd2 : d2 ≠ 0 := h2.pos.ne'
+  unfold m12f dM12f
+  rw [← sub_eq_zero]
+  have key : d1 * d2 * ((c1 * c2 + s1 * s2 + ((d2 - d1) * s2 - c2 * J) * s1 / d1) * (c1 * c2 + s1 * s2 - ((d2 - d1) * s1 - c1 * J) * s2 / d2)
+      - (d2 * (c1 * s2) - d1 * (s1 * c2) - c1 * c2 * J) * ((d2 * s1 * c2 - d1 * c1 * s2 + s1 * s2 * J) / (d1 * d2)) - 1) =
+      d1 * d2 * (c2 ^ 2 + s2 ^ 2) * (s1 ^ 2 + c1 ^ 2 - 1) + d1 * d2 * (s2 ^ 2 + c2 ^ 2 - 1) := by
+    field_simp
+    ring
+  have hz : d1 * d2 * (c2 ^ 2 + s2 ^ 2) * (s1 ^ 2 + c1 ^ 2 - 1) + d1 * d2 * (s2 ^ 2 + c2 ^ 2 - 1) = 0 := by rw [h1.unit, h2.unit]; ring
+  rw [hz] at key
+  exact (mul_eq_zero.mp key).resolve_left (mul_ne_zero hd1 hd2)
+
+/-- **addition rule for the geodesic scale, for the formulas as coded**: `M13 = M12 M23 − (1 − M12 M21) m23/m12`, stated without the division
+    (`addition_rule_M_div` divides by `m12 ≠ 0`) -/
+theorem addition_rule_M (k2 s1 c1 d1 s2 c2 d2 s3 c3 d3 J12 J23 : ℝ) (h1 : Pt k2 s1 c1 d1) (h2 : Pt k2 s2 c2 d2) (h3 : Pt k2 s3 c3 d3) :
+    let m12 := m12f s1 c1 d1 s2 c2 d2 J12
+    let m23 := m12f s2 c2 d2 s3 c3 d3 J23
+    let M12 := M12f k2 s1 d1 s2 c2 d2 (c1 * c2 + s1 * s2) J12
+    let M21 := M21f k2 s1 c1 d1 s2 d2 (c1 * c2 + s1 * s2) J12
+    let M23 := M12f k2 s2 d2 s3 c3 d3 (c2 * c3 + s2 * s3) J23
+    let M13 := M12f k2 s1 d1 s3 c3 d3 (c1 * c3 + s1 * s3) (J12 + J23)
+    M13 * m12 = M12 * M23 * m12 - (1 - M12 * M21) * m23 := by
+  intro m12 m23 M12 M21 M23 M13
+  simp only [m12, m23, M12, M21, M23, M13]
+  rw [M12f_eq k2 s1 c1 d1 s2 c2 d2 J12 h1 h2, M21f_eq k2 s1 c1 d1 s2 c2 d2 J12 h1 h2, M12f_eq k2 s2 c2 d2 s3 c3 d3 J23 h2 h3,
+    M12f_eq k2 s1 c1 d1 s3 c3 d3 (J12 + J23) h1 h3]
+  have hd1 : d1 ≠ 0 := h1.pos.ne'
+  have hd2 : d2 ≠ 0 := h2.pos.ne'
+  unfold m12f
+  rw [← sub_eq_zero]
+  have key : d1 * d2 * ((c1 * c3 + s1 * s3 + ((d3 - d1) * s3 - c3 * (J12 + J23)) * s1 / d1) * (d2 * (c1 * s2) - d1 * (s1 * c2) - c1 * c2 * J12) -
+      ((c1 * c2 + s1 * s2 + ((d2 - d1) * s2 - c2 * J12) * s1 / d1) * (c2 * c3 + s2 * s3 + ((d3 - d2) * s3 - c3 * J23) * s2 / d2) * (d2 * (c1 * s2) - d1 * (s1 * c2) - c1 * c2 * J12) -
+       (1 - (c1 * c2 + s1 * s2 + ((d2 - d1) * s2 - c2 * J12) * s1 / d1) * (c1 * c2 + s1 * s2 - ((d2 - d1) * s1 - c1 * J12) * s2 / d2)) * (d3 * (c2 * s3) - d2 * (s2 * c3) - c2 * c3 * J23))) =
+      (-d1*d2*(-J12*c2^3*c3 - J12*c2*c3*s2^2 + J12*c2*c3 - J23*c2^3*c3 - J23*c2*c3*s2^2 + c2^3*d3*s3 + c2*d3*s2^2*s3 - c3*d2*s2)) * (s1 ^ 2 + c1 ^ 2 - 1) +
+      (d2*(-J12^2*c1*c2*c3*s1 - J12*J23*c1*c2*c3*s1 + J12*c1*c2*d3*s1*s3 + J12*c1*c3*d2*s1*s2 - 2*J12*c2*c3*d1*s1^2 + J12*c2*c3*d1 + J23*c1*c3*d2*s1*s2 - J23*c2*c3*d1*s1^2 + J23*c2*c3*d1 + c1*c2*c3*d1^2*s1 - c1*d2*d3*s1*s2*s3 + c2*d1*d3*s1^2*s3 - c2*d1*d3*s3 + c3*d1*d2*s1^2*s2)) * (s2 ^ 2 + c2 ^ 2 - 1) := by
+    field_simp
+    ring
+  have hz : (-d1*d2*(-J12*c2^3*c3 - J12*c2*c3*s2^2 + J12*c2*c3 - J23*c2^3*c3 - J23*c2*c3*s2^2 + c2^3*d3*s3 + c2*d3*s2^2*s3 - c3*d2*s2)) * (s1 ^ 2 + c1 ^ 2 - 1) +
+      (d2*(-J12^2*c1*c2*c3*s1 - J12*J23*c1*c2*c3*s1 + J12*c1*c2*d3*s1*s3 + J12*c1*c3*d2*s1*s2 - 2*J12*c2*c3*d1*s1^2 + J12*c2*c3*d1 + J23*c1*c3*d2*s1*s2 - J23*c2*c3*d1*s1^2 + J23*c2*c3*d1 + c1*c2*c3*d1^2*s1 - c1*d2*d3*s1*s2*s3 + c2*d1*d3*s1^2*s3 - c2*d1*d3*s3 + c3*d1*d2*s1^2*s2)) * (s2 ^ 2 + c2 ^ 2 - 1) = 0 := by
+    rw [h1.unit, h2.unit]; ring
+  rw [hz] at key
+  exact (mul_eq_zero.mp key).resolve_left (mul_ne_zero hd1 hd2)
+
+
+theorem addition_rule_M_div (k2 s1 c1 d1 s2 c2 d2 s3 c3 d3 J12 J23 : ℝ) (h1 : Pt k2 s1 c1 d1) (h2 : Pt k2 s2 c2 d2) (h3 : Pt k2 s3 c3 d3)
+    (hm : m12f s1 c1 d1 s2 c2 d2 J12 ≠ 0) :
+    M12f k2 s1 d1 s3 c3 d3 (c1 * c3 + s1 * s3) (J12 + J23) =
+      M12f k2 s1 d1 s2 c2 d2 (c1 * c2 + s1 * s2) J12 * M12f k2 s2 d2 s3 c3 d3 (c2 * c3 + s2 * s3) J23 -
+      (1 - M12f k2 s1 d1 s2 c2 d2 (c1 * c2 + s1 * s2) J12 * M21f k2 s1 c1 d1 s2 d2 (c1 * c2 + s1 * s2) J12) *
+        m12f s2 c2 d2 s3 c3 d3 J23 / m12f s1 c1 d1 s2 c2 d2 J12 := by
+  have h := addition_rule_M k2 s1 c1 d1 s2 c2 d2 s3 c3 d3 J12 J23 h1 h2 h3
+  simp only at h
+  rw [eq_sub_iff_add_eq, ← mul_left_inj' hm, add_mul, div_mul_cancel₀ _ hm]
+  linear_combination h
+
+/-- non-vacuity of `Pt`: three different points of a geodesic with `k² = 25/3` -/
+example : Pt (25 / 3) (3 / 5) (4 / 5) 2 ∧ Pt (25 / 3) (-3 / 5) (4 / 5) 2 ∧ Pt (25 / 3) 0 (-1) 1 :=
+  ⟨⟨by norm_num, by norm_num, by norm_num⟩, ⟨by norm_num, by norm_num, by norm_num⟩, ⟨by norm_num, by norm_num, by norm_num⟩⟩
+
+/-! #### the executed models use exactly these expressions -/
+
+/-- `GeodesicLine::GenPosition` (series): `m12 = b·m12f`, `M12 = M12f`, `M21 = M21f` at `(ssig1, csig1, dn1)`, `(ssig2, csig2, dn2)`,
+    `dn2 = √(1 + k² ssig2²)`, the arc's cosine and some `J12` -/
+theorem genpos_scales_are_formulas (L : Line ℝ) (arcmode : Bool) (s sk ck : ℝ) (un : Bool) :
+    let P := genPosition L arcmode s sk ck un
+    ∃ dn2 J12 : ℝ, dn2 = Real.sqrt (1 + L.k2 * P.ssig2 ^ 2) ∧
+      P.m12 = L.b * m12f L.ssig1 L.csig1 L.dn1 P.ssig2 P.csig2 dn2 J12 ∧
+      P.M12 = M12f L.k2 L.ssig1 L.dn1 P.ssig2 P.csig2 dn2 (arcOf L arcmode s sk ck).2.2.1 J12 ∧
+      P.M21 = M21f L.k2 L.ssig1 L.csig1 L.dn1 P.ssig2 dn2 (arcOf L arcmode s sk ck).2.2.1 J12 := by
+  intro P
+  refine ⟨?d, ?J, ?e0, ?e1, ?e2, ?e3⟩
+  case e1 => exact rfl
+  case e2 => exact rfl
+  case e3 => exact rfl
+  case e0 => simp only [sqrt_real, sq_real, lit_real, Nat.cast_one]; rfl
+
+/-- `GeodesicLineExact::GenPosition`: the same three expressions, with `dn2 = Delta(σ2)` and `J12 = k² D0 (σ12 + deltaD(σ2) − D1)` — every kernel -/
+theorem xgenpos_scales_are_formulas (L : LineX ℝ) (K : Ell ℝ) (arcmode : Bool) (s sk ck : ℝ) (un : Bool) :
+    let P := genPositionX L K arcmode s sk ck un
+    P.m12 = L.b * m12f L.ssig1 L.csig1 L.dn1 P.ssig2 P.csig2 P.dn2 P.J12 ∧
+    P.M12 = M12f L.k2 L.ssig1 L.dn1 P.ssig2 P.csig2 P.dn2 P.csig12 P.J12 ∧
+    P.M21 = M21f L.k2 L.ssig1 L.csig1 L.dn1 P.ssig2 P.dn2 P.csig12 P.J12 := ⟨rfl, rfl, rfl⟩
+
+/-- `EllipticFunction::Delta` as the line's object computes it is `√(1 + k² sin²σ)` in either branch (`_kp2 = 1 + k2`) -/
+theorem delta_sq (k2 sn cn : ℝ) (hu : sn ^ 2 + cn ^ 2 = 1) (hp : 0 ≤ 1 + k2 * sn ^ 2) : delta k2 (1 + k2) sn cn ^ 2 = 1 + k2 * sn ^ 2 := by
+  unfold delta
+  simp only [ltb_real, lit_real, Nat.cast_zero, Nat.cast_one, sqrt_real]
+  split_ifs with h
+  · rw [Real.sq_sqrt (by nlinarith)]; ring
+  · have e : (1 : ℝ) + k2 + -k2 * cn * cn = 1 + k2 * sn ^ 2 := by linear_combination (-k2) * hu
+    rw [e, Real.sq_sqrt hp]
+
+/-- **the Wronskian identity on the executed model of the exact line**, for every kernel: at a non-degenerate end point of a line with unit
+    `(ssig1, csig1)`, `dn1² = 1 + k² ssig1²`, `dn1 > 0`, `_kp2 = 1 + k2`, in arc mode with a unit kernel pair, and `1 + k² ssig2² > 0`:
+    `M12 M21 − (m12/b)·dM12f = 1` -/
+theorem xgenpos_wronskian (L : LineX ℝ) (K : Ell ℝ) (a12 sk ck : ℝ) (un : Bool)
+    (h1 : Pt L.k2 L.ssig1 L.csig1 L.dn1) (hkp : L.kp2 = 1 + L.k2) (hk : sk ^ 2 + ck ^ 2 = 1)
+    (hnd : NonDegenerateX L K true a12 sk ck) (hb : L.b ≠ 0)
+    (hpos : 0 < 1 + L.k2 * (L.ssig1 * ck + L.csig1 * sk) ^ 2) :
+    let P := genPositionX L K true a12 sk ck un
+    P.M12 * P.M21 - P.m12 / L.b * dM12f L.ssig1 L.csig1 L.dn1 P.ssig2 P.csig2 P.dn2 P.J12 = 1 := by
+  intro P
+  obtain ⟨a0, a1, a2⟩ := arcOfX_arc L K a12 sk ck
+  obtain ⟨e1, e2, _⟩ := genposX_nd L K true a12 sk ck un hnd
+  have hs2 : P.ssig2 = L.ssig1 * ck + L.csig1 * sk := by rw [e1]; unfold ssig2ofX; rw [a1, a2]
+  have hc2 : P.csig2 = L.csig1 * ck - L.ssig1 * sk := by rw [e2]; unfold csig2preX; rw [a1, a2]
+  have hu2 : P.ssig2 ^ 2 + P.csig2 ^ 2 = 1 := by rw [hs2, hc2]; linear_combination (L.ssig1 ^ 2 + L.csig1 ^ 2) * hk + h1.unit
+  have hdn : P.dn2 = delta L.k2 (1 + L.k2) P.ssig2 P.csig2 := by
+    show delta L.k2 L.kp2 _ _ = _
+    rw [hkp, hs2, hc2, a1, a2]
+  have hd2 : P.dn2 ^ 2 = 1 + L.k2 * P.ssig2 ^ 2 := by rw [hdn]; exact delta_sq _ _ _ hu2 (by rw [hs2]; exact hpos.le)
+  have hd2p : 0 < P.dn2 := by
+    have : 0 ≤ P.dn2 := by rw [hdn]; unfold delta; simp only [sqrt_real]; exact Real.sqrt_nonneg _
+    rcases this.lt_or_eq with h | h
+    · exact h
+    · exfalso; rw [← h] at hd2; rw [hs2] at hd2; nlinarith
+  have h2 : Pt L.k2 P.ssig2 P.csig2 P.dn2 := ⟨hu2, hd2, hd2p⟩
+  have hc12 : P.csig12 = L.csig1 * P.csig2 + L.ssig1 * P.ssig2 := by
+    have : P.csig12 = ck := a2
+    rw [this, hs2, hc2]; linear_combination (-ck) * h1.unit
+  obtain ⟨f1, f2, f3⟩ := xgenpos_scales_are_formulas L K true a12 sk ck un
+  show P.M12 * P.M21 - P.m12 / L.b * _ = 1
+  rw [f1, f2, f3, hc12, mul_div_cancel_left₀ _ hb]
+  exact scales_wronskian L.k2 L.ssig1 L.csig1 L.dn1 P.ssig2 P.csig2 P.dn2 P.J12 h1 h2
+
+/-- non-vacuity: the equator of the unit sphere with the sphere kernel, a quarter circuit -/
+example : Pt exLineX.k2 exLineX.ssig1 exLineX.csig1 exLineX.dn1 ∧ exLineX.kp2 = 1 + exLineX.k2 ∧ (1 : ℝ) ^ 2 + 0 ^ 2 = 1 ∧
+    NonDegenerateX exLineX exEll true 90 1 0 ∧ exLineX.b ≠ 0 ∧ 0 < 1 + exLineX.k2 * (exLineX.ssig1 * 0 + exLineX.csig1 * 1) ^ 2 := by
+  refine ⟨⟨by simp [exLineX], by simp [exLineX], by simp [exLineX]⟩, by simp [exLineX], by norm_num, exLineX_nd _ _ _ _, by simp [exLineX], by simp [exLineX]⟩
+
+end Scales
+
+/-! ### `DST::integral` (the area term of the exact line) -/
+
+section DSTsec
+open Real GeoVerif.GeodLine GeoVerif.GeodLineX GeoVerif.Proofs.GeodLineX
+
+/-- **`DST::integral` is the sum it stands for**: `DST::integral(sin x, cos x, F, N) = −Σ_{i<N} F[i]/(2i+1) · cos((2i+1)x)` for every
+    coefficient vector and every `x` (the area term `B4(σ)` of the exact line: `S12 = c² α12 + A4 (B42 − B41)`) -/
+theorem dstIntegral_eq (x : ℝ) (F : List ℝ) : dstIntegral (sin x) (cos x) F = -dstSum x 0 F := by
+  unfold dstIntegral
+  have hw := dstW_eq F 0
+  simp only [Nat.add_zero] at hw
+  simp only [lit_real, Nat.cast_zero]
+  rw [hw, clenshaw_dst x F 0]
+  have ar : (2 : ℝ) * (cos x - sin x) * (cos x + sin x) = 2 * cos (2 * x) := by rw [cos_two_mul, ← sin_sq_add_cos_sq x]; ring
+  have h1 : cos ((2 * (0:ℝ) + 1) * x) = cos x := by simp
+  have h2 : cos ((2 * (0:ℝ) - 1) * x) = cos x := by
+    have : (2 * (0:ℝ) - 1) * x = -x := by ring
+    rw [this, cos_neg]
+  push_cast
+  rw [h1, h2, ar]; ring
+
+end DSTsec
+
+/-! ### the closed-form ellipsoid area -/
+
+section Authalic
+open Real GeoVerif.GeodLine GeoVerif.GeodLineX GeoVerif.Proofs.GeodLineX
+
+/-- **both solvers hold the same authalic radius**: for an oblate ellipsoid (`0 < f < 1`) `GeodesicExact`'s `_c2` (written with
+    `asinh √e′²`) and `Geodesic`'s (written with `e·atanh e` through `Math::eatanhe`) are the same real number, `(a² + b² atanh(e)/e)/2`;
+    `EllipsoidArea() = 4π c2` in both classes -/
+theorem c2_exact_eq_series (a f tiny eps0 : ℝ) (h0 : 0 < f) (h1 : f < 1) :
+    (geodesicX a f tiny eps0).c2 = (geodesic a f tiny eps0).c2 ∧
+    (geodesic a f tiny eps0).c2 = (a ^ 2 + (a * (1 - f)) ^ 2 * (Real.log ((1 + Real.sqrt (f * (2 - f))) / (1 - Real.sqrt (f * (2 - f)))) / 2 / Real.sqrt (f * (2 - f)))) / 2 := by
+  set e2 := f * (2 - f) with he2
+  have he2p : 0 < e2 := by rw [he2]; nlinarith
+  have he2l : e2 < 1 := by rw [he2]; nlinarith
+  set e := Real.sqrt e2 with he
+  have hep : 0 < e := Real.sqrt_pos.mpr he2p
+  have hesq : e ^ 2 = e2 := Real.sq_sqrt he2p.le
+  have hel : e < 1 := by
+    have : e ^ 2 < 1 ^ 2 := by rw [hesq]; linarith
+    exact lt_of_pow_lt_pow_left₀ 2 (by norm_num) this
+  have hf1 : 0 < 1 - f := by linarith
+  have hf1sq : (1 - f) ^ 2 = 1 - e ^ 2 := by rw [hesq, he2]; ring
+  have hsq1 : Real.sqrt (1 - e ^ 2) = 1 - f := by rw [← hf1sq, Real.sqrt_sq hf1.le]
+  have hrt : Real.sqrt (e2 / (1 - f) ^ 2) = e / Real.sqrt (1 - e ^ 2) := by
+    rw [Real.sqrt_div he2p.le, Real.sqrt_sq hf1.le, hsq1]
+  have hser : (geodesic a f tiny eps0).c2 = (a ^ 2 + (a * (1 - f)) ^ 2 * (Real.log ((1 + e) / (1 - e)) / 2 / e)) / 2 := by
+    unfold geodesic eatanhe1
+    simp only [lit_real, sq_real, eqb_real, ltb_real, sqrt_real, abs_real]
+    push_cast
+    simp only [← he2]
+    simp only [decide_eq_true_eq, if_neg he2p.ne', if_neg (not_lt.mpr h0.le), abs_of_pos he2p, ← he, one_mul, mul_one, if_pos hep]
+    show (a ^ 2 + (a * (1 - f)) ^ 2 * (e * (Real.log ((1 + e) / (1 - e)) / 2) / e2)) / _ = _
+    rw [← hesq]; field_simp
+  refine ⟨?_, hser⟩
+  rw [hser]
+  unfold geodesicX
+  simp only [lit_real, sq_real, eqb_real, ltb_real, sqrt_real, abs_real]
+  push_cast
+  simp only [← he2]
+  simp only [decide_eq_true_eq, if_neg h0.ne', if_pos h0, abs_of_pos he2p, ← he]
+  show (a ^ 2 + (a * (1 - f)) ^ 2 * (Real.arsinh (Real.sqrt (e2 / (1 - f) ^ 2)) / e)) / _ = _
+  rw [hrt, arsinh_eq_atanh e hep hel]
+
+example : (0 : ℝ) < 1 / 298 ∧ (1 / 298 : ℝ) < 1 := by norm_num
+
+end Authalic
 
 end GeoVerif.Props.C03
